@@ -22,8 +22,8 @@ MIN_HELD = {'quick': 400, 'thorough': 2000}
 
 def cells(tier, seed):
     out = c03.cells(tier, seed, 'c04')
-    if tier == 'quick':
-        out = out + c03.cells(tier, seed, 'c04b')
+    for extra in (['c04b'] if tier == 'quick' else ['c04b', 'c04c', 'c04d', 'c04e', 'c04f', 'c04g']):
+        out = out + c03.cells(tier, seed, extra)
     return out
 
 
